@@ -398,3 +398,192 @@ func checkNilBeliefsAcrossCalls(c *core.Ctx, prog *core.Prog, table *panicob.Tab
 		}
 	}
 }
+
+// nilableFields: struct fields that the generator itself leaves nil for some
+// members (confirmed by reading: ir.Field literals without Spec are built for
+// additional / pattern property maps, sum members, tuple elements, security
+// types). Every dereference of such a field must sit under a nil test of the
+// same access path.
+var nilableFields = map[string]string{
+	"Field.Spec": "synthetic struct members (AdditionalProps, Pattern<N>Props, OneOf/AnyOf sum members, tuple V<N>, security fields) have no property spec",
+}
+
+// checkNilableFieldDerefs (R11.10).
+func checkNilableFieldDerefs(c *core.Ctx, prog *core.Prog, table *panicob.Table) {
+	r := c.NewRule("R11.10", "S1", "fields the generator leaves nil for synthetic members (ir.Field.Spec) are dereferenced only under a nil test", 5)
+	var fns []*ssa.Function
+	for _, pp := range []string{pkgGen, pkgIR} {
+		if sp := prog.ByPath[pp]; sp != nil {
+			for _, top := range core.PkgFuncs(prog.SSA, sp) {
+				fns = append(fns, core.AllFuncs(top)...)
+			}
+		}
+	}
+	seen := map[*ssa.Function]bool{}
+	for _, fn := range fns {
+		if seen[fn] || fn.Blocks == nil {
+			continue
+		}
+		seen[fn] = true
+		// loads of a nilable field
+		type load struct {
+			v    *ssa.UnOp
+			path string
+		}
+		var loads []load
+		for _, b := range fn.Blocks {
+			for _, in := range b.Instrs {
+				ld, ok := in.(*ssa.UnOp)
+				if !ok || ld.Op != token.MUL {
+					continue
+				}
+				fa, ok := ld.X.(*ssa.FieldAddr)
+				if !ok {
+					continue
+				}
+				_, tn := core.NamedOf(fa.X.Type())
+				if _, nilable := nilableFields[tn+"."+fieldName(fa.X.Type(), fa.Field)]; !nilable {
+					continue
+				}
+				loads = append(loads, load{ld, accessPath(ld, 0)})
+			}
+		}
+		if len(loads) == 0 {
+			continue
+		}
+		// nil tests per access path (or per value)
+		type test struct {
+			v       ssa.Value
+			blk     *ssa.BasicBlock
+			nonNil  *ssa.BasicBlock
+			nilSide *ssa.BasicBlock
+		}
+		var tests []test
+		for _, b := range fn.Blocks {
+			iff, ok := b.Instrs[len(b.Instrs)-1].(*ssa.If)
+			if !ok {
+				continue
+			}
+			bo, ok := iff.Cond.(*ssa.BinOp)
+			if !ok || (bo.Op != token.EQL && bo.Op != token.NEQ) {
+				continue
+			}
+			var v ssa.Value
+			switch {
+			case core.IsNilConst(bo.Y):
+				v = bo.X
+			case core.IsNilConst(bo.X):
+				v = bo.Y
+			default:
+				continue
+			}
+			t := test{v: v, blk: b}
+			if bo.Op == token.EQL {
+				t.nilSide, t.nonNil = b.Succs[0], b.Succs[1]
+			} else {
+				t.nonNil, t.nilSide = b.Succs[0], b.Succs[1]
+			}
+			tests = append(tests, t)
+		}
+		leaves := func(b *ssa.BasicBlock) bool {
+			for d := 0; d < 3 && b != nil; d++ {
+				switch b.Instrs[len(b.Instrs)-1].(type) {
+				case *ssa.Return, *ssa.Panic:
+					return true
+				}
+				if len(b.Succs) != 1 {
+					return false
+				}
+				b = b.Succs[0]
+			}
+			return false
+		}
+		// `continue` on nil in a loop: the nil side jumps back to the loop header without reaching the deref
+		reported := map[string]bool{}
+		for _, l := range loads {
+			// dereferences of the loaded pointer
+			for _, ref := range *l.v.Referrers() {
+				var at ssa.Instruction
+				switch x := ref.(type) {
+				case *ssa.FieldAddr:
+					if x.X == ssa.Value(l.v) {
+						at = x
+					}
+				case *ssa.UnOp:
+					if x.Op == token.MUL && x.X == ssa.Value(l.v) {
+						at = x
+					}
+				}
+				if at == nil {
+					continue
+				}
+				guarded := false
+				for _, t := range tests {
+					same := t.v == ssa.Value(l.v) || sameFieldLoad(t.v, l.v)
+					if !same && l.path != "" {
+						same = accessPath(t.v, 0) == l.path
+					}
+					if !same {
+						continue
+					}
+					if len(t.nonNil.Preds) == 1 && (t.nonNil == at.Block() || t.nonNil.Dominates(at.Block())) {
+						guarded = true
+					}
+					if t.blk.Dominates(at.Block()) && t.blk != at.Block() && (leaves(t.nilSide) || !blockReachesAvoiding(t.nilSide, at.Block(), t.blk)) {
+						guarded = true
+					}
+				}
+				key := fmt.Sprintf("nilable-field:%s:%s", fnKeyFull(fn), strings.TrimPrefix(l.path, "$"))
+				if l.path == "" {
+					key = fmt.Sprintf("nilable-field:%s:Spec", fnKeyFull(fn))
+				}
+				if guarded {
+					r.Ob(true, "")
+					continue
+				}
+				if reported[key] {
+					continue
+				}
+				reported[key] = true
+				if e := tableReason(table, key); e != "" {
+					r.Justified++
+					r.Pass(fmt.Sprintf("%s at %s: reviewed: %s", key, c.Pos(at.Pos()), e))
+					continue
+				}
+				r.Fail(key, c.Pos(at.Pos()), fmt.Sprintf("%s dereferences a member's Spec without a nil test: members the generator makes up (additional / pattern property maps, inline oneOf/anyOf members, tuple elements) have none, and a document that produces one here crashes the generator", fn.Name()))
+			}
+		}
+	}
+}
+
+// blockReachesAvoiding: is `to` reachable from `from` without passing through `avoid`?
+func blockReachesAvoiding(from, to, avoid *ssa.BasicBlock) bool {
+	seen := map[*ssa.BasicBlock]bool{}
+	stack := []*ssa.BasicBlock{from}
+	for len(stack) > 0 {
+		b := stack[len(stack)-1]
+		stack = stack[:len(stack)-1]
+		if seen[b] || b == avoid {
+			continue
+		}
+		seen[b] = true
+		if b == to {
+			return true
+		}
+		stack = append(stack, b.Succs...)
+	}
+	return false
+}
+
+
+// sameFieldLoad: two loads of the same field of the same (SSA, hence immutable) base pointer.
+func sameFieldLoad(a, b ssa.Value) bool {
+	la, ok1 := a.(*ssa.UnOp)
+	lb, ok2 := b.(*ssa.UnOp)
+	if !ok1 || !ok2 || la.Op != token.MUL || lb.Op != token.MUL {
+		return false
+	}
+	fa, ok1 := la.X.(*ssa.FieldAddr)
+	fb, ok2 := lb.X.(*ssa.FieldAddr)
+	return ok1 && ok2 && fa.X == fb.X && fa.Field == fb.Field
+}
